@@ -1550,20 +1550,40 @@ def _no_field_left(it, alloc):
 def _missing_strict(it, fi, F, pname, strict_name="strict"):
     """a raise reached for a requested name that is not a field of F, under `strict`"""
     strict = ("TRUE", ("P", strict_name))
+
+    def missing_list(t):
+        """the list holds the requested names that are not fields of F: [n for n in names if n not in fields]"""
+        if t[0] != "LIST":
+            return False
+        for s in it.heap.get(t[1], []):
+            for h in s.guards:
+                if h.cond[0] == "IN" and h.cond[2] == ("NAMES", F) and not h.pol and h.cond[1] == s.elem and s.elem[0] == "ELEM" and _param_of(s.elem[1]) == pname:
+                    return True
+        return False
+
+    def made_under_strict(t, e):
+        """the list was made in the arm of a test of `strict` alone (the only test around its creation that is not also around the
+        raise e is `strict`, true): in strict mode the arm runs, so the list is the value the merged variable has"""
+        ctx = it.listctx.get(t[1])
+        if ctx is None:
+            return False
+        own = [g for g in ctx[1] if not any(g is x for x in e.guards)]
+        return len(own) == 1 and own[0].cond == strict and own[0].pol and own[0].kind == "filter"
     for e in _raises(it):
-        if not _g(e, lambda g: g.cond == strict and g.pol):
-            continue
+        under = _g(e, lambda g: g.cond == strict and g.pol)
         for g in e.guards:
             c = g.cond
-            if c[0] == "IN" and c[2] == ("NAMES", F) and not g.pol and c[1][0] == "ELEM" and _param_of(c[1][1]) == pname \
+            if under and c[0] == "IN" and c[2] == ("NAMES", F) and not g.pol and c[1][0] == "ELEM" and _param_of(c[1][1]) == pname \
                     and any(lp.id == c[1][2] for lp in e.loops):
                 return True
             # `missing = [n for n in names if n not in fields]; if strict and missing: raise`
-            if c[0] == "TRUE" and g.pol and c[1][0] == "LIST":
-                for s in it.heap.get(c[1][1], []):
-                    for h in s.guards:
-                        if h.cond[0] == "IN" and h.cond[2] == ("NAMES", F) and not h.pol and h.cond[1] == s.elem and s.elem[0] == "ELEM" and _param_of(s.elem[1]) == pname:
-                            return True
+            if under and c[0] == "TRUE" and g.pol and missing_list(c[1]):
+                return True
+            # `missing = []; if strict: missing = [n for n in names if n not in fields]` then `if missing: raise`: the tested value is
+            # the merge of the two arms of `if strict`; the arm taken in strict mode made the list of missing names
+            if c[0] == "TRUE" and g.pol and c[1][0] == "PHI" and len(c[1]) == 3 and \
+                    any(missing_list(a) and made_under_strict(a, e) for a in c[1][1:]):
+                return True
     return False
 
 
@@ -2266,6 +2286,14 @@ def _compared_quantity(g, arrlist, e):
     return "other", text
 
 
+def _walks_whole(lp, seq):
+    """the loop visits every element of the sequence `seq` exactly once, in the order of the sequence, the visited element being
+    ('ELEM', seq, loop id): `for a in seq`, `for i, a in enumerate(seq)`, `for i in range(len(seq)): seq[i]`"""
+    if lp.broken or lp.unordered:
+        return False
+    return lp.src == seq or lp.src in (("ENUM", seq), ("RANGEOF", seq))
+
+
 def combine(chk, repo, fi, it, alloc):
     q = fi.qualname
     arrlist = ("P", fi.params[0])
@@ -2301,7 +2329,7 @@ def combine(chk, repo, fi, it, alloc):
         if len(segs) == 1 and len(segs[0].loops) == 2 and not _filters(segs[0].guards):
             l1, l2 = segs[0].loops
             el = ("ELEM", arrlist, l1.id)
-            ok = l1.src == arrlist and not l1.broken and _in_order_over(l2, ("DT", el)) and segs[0].elem == ("ENTRY", ("DT", el), ("K", l2.id))
+            ok = _walks_whole(l1, arrlist) and _in_order_over(l2, ("DT", el)) and segs[0].elem == ("ENTRY", ("DT", el), ("K", l2.id))
     chk.ob("R07.order", q + "::field-lists-concatenated-in-list-order", ok, fi.where(),
            "the combined descr is the concatenation of each array's dtype.descr in list order (found: %s)" % _seg_text(segs))
     chk.assume("a field name shared between combined arrays is rejected by numpy.dtype construction (duplicate field names raise ValueError)")
